@@ -29,6 +29,32 @@ def run(rep, tier):
     njobs = 96 if tier == "quick" else 1200
     for res in core.pool().imap_unordered(L.newline_work, [(rng.randrange(1 << 40), 25) for _ in range(njobs)], chunksize=1):
         fold(rep, res, "line_breaks")
+    # the end of the file: white space, comments and empty statements after the last terminator change nothing; and what
+    # follows a last line that has no terminator (nothing, blanks, a comment) makes no difference either
+    import re
+    from .. import printer as P, progen as G
+    strip = lambda b: re.sub(rb"\d+:\d+", b"L:C", b)
+    for i in range(40 if tier == "quick" else 600):
+        prog, _ = G.generate(rng.randrange(1 << 40), size=rng.choice([3, 6, 12]))
+        text = P.render(prog).text
+        assert text.endswith("\n")
+        done = [text, text + "\n\n", text + "   ", text + "# c", text + "\t# é✓\n", text + ";", text + " ;; \n", text + "\r\n", text + "#"]
+        cut = text[:-1]
+        open_ = [cut, cut + " ", cut + "  # c", cut + "\t", cut + "#", cut + " \t ", cut + "# é"]
+        for name, group, key in (("after_last_terminator", done, lambda o: (o.code, o.out, o.err)), ("unterminated_last_line", open_, lambda o: (o.code, o.out, strip(o.err)))):
+            obs = core.run_many([{"src": t} for t in group])
+            rep.evaluations += len(group)
+            rep.process_runs += len(group)
+            rep.tally("end_of_file", name, len(group))
+            if any(o.timeout for o in obs):
+                rep.note_inconclusive("end-of-file variants: timeout")
+                continue
+            for t, o in zip(group[1:], obs[1:]):
+                if o.died or key(o) != key(obs[0]):
+                    rep.violation("C09/end-of-file/" + name, "what follows the last %s changes the behaviour: exit %s / %s, stderr %r / %r" % (
+                        "terminator" if name.startswith("after") else "(unterminated) line", obs[0].code, o.code, obs[0].err[:120], o.err[:120]),
+                        {"src": t, "oracle": "layout invariance at the end of the file", "reference": group[0], "observed": o.brief()})
+                    break
     lb = rep.cov.get("line_breaks", {})
     cont_kinds = {k[5:] for k in lb if k.startswith("cont:")}
     term_kinds = {k[5:] for k in lb if k.startswith("term:")}
